@@ -67,6 +67,13 @@ CLAIMS = {
             "translate the same (sds, dict, now), and the expiry semiring is exactly (max, min, 0, +inf). Equality of the two "
             "fixpoints over all histories is not decided.",
             "MIR comparison normal forms (T-GUARD), sibling agreement, exact-body checks of semiring operations"),
+    "C08": ("DESIGN.md §4 C08",
+            "Decides that every Alert/NoAlert placed in a certified result is control-dependent on the threshold test of the "
+            "very bound it is published with (probability, interval lower/upper), that from the failure edge of every "
+            "budgeted step and from an unknown residual mass no certified result is reachable except through the success "
+            "edge of the exact compilation, that swallowed failures only feed metrics, and that decision() is Indeterminate "
+            "for the non-certified variants. Soundness of the bounds themselves (residual mass, WMC) is numeric and not decided.",
+            "MIR control dependence on normalised comparisons, cut-edge reachability, taint of swallowed errors"),
 }
 
 NA = {
